@@ -21,7 +21,7 @@ _tl = _rt.local()
 NEW, RUN, BLOCK, DONE = 0, 1, 2, 3
 _STATE = {NEW: "NEW", RUN: "RUN", BLOCK: "BLOCK", DONE: "DONE"}
 
-WATCHDOG_S = 120.0  # real seconds a single execution may take before it is declared uncontrolled
+WATCHDOG_S = 600.0  # real seconds a single execution may take before it is declared uncontrolled
 
 
 class Killed(BaseException):
